@@ -66,6 +66,12 @@ fn menus(class: &str) -> Vec<Logical> {
     fn enabled(i: usize) -> Variant {
         Variant::Bool(i % 2 == 1)
     }
+    fn mesh_id(i: usize) -> Variant {
+        Variant::ContentId(rbx_types::ContentId::from(format!("rbxassetid://{}", 100 + i)))
+    }
+    fn mesh_content(i: usize) -> Variant {
+        Variant::Content(rbx_types::Content::from_uri(format!("rbxassetid://{}", 200 + i)))
+    }
     fn dist_a(i: usize) -> Variant {
         Variant::Float32(10.0 + i as f32)
     }
@@ -89,6 +95,12 @@ fn menus(class: &str) -> Vec<Logical> {
             Logical { spellings: vec![("Enabled", enabled)] },
             Logical { spellings: vec![("ZzFoo", foo)] },
         ],
+        // a class with several migrating properties of different targets
+        "MeshPart" => vec![
+            Logical { spellings: vec![("MeshId", mesh_id), ("MeshContent", mesh_content)] },
+            Logical { spellings: vec![("TextureID", mesh_id), ("TextureContent", mesh_content)] },
+            Logical { spellings: vec![("BrickColor", brick), ("Color3uint8", color8)] },
+        ],
         // two canonical properties of the bundled database that are stored under one serialized name
         "Sound" => vec![
             Logical { spellings: vec![("MaxDistance", dist_a), ("RollOffMaxDistance", dist_b)] },
@@ -103,7 +115,7 @@ fn menus(class: &str) -> Vec<Logical> {
     }
 }
 
-pub const CLASSES: [&str; 5] = ["Part", "TextLabel", "ScreenGui", "ZzUnknown", "Sound"];
+pub const CLASSES: [&str; 6] = ["Part", "TextLabel", "ScreenGui", "ZzUnknown", "Sound", "MeshPart"];
 
 /// An instance configuration: per logical property 0 = absent, k = spelling k-1.
 fn config_count(class: &str) -> usize {
